@@ -3,6 +3,8 @@ package main
 // Engine: loading /repo, contract files, function index, per-function verification driver.
 
 import (
+	"go/token"
+	"encoding/json"
 	"fmt"
 	"go/types"
 	"math/big"
@@ -40,7 +42,8 @@ type Engine struct {
 	axiomTerms     []axiomTerm
 	guardIdx       map[string]*guardDecl
 	immutableNote  []string
-	ownContracts   map[string]*Contract // implementer refinements as written (before merging with the interface contract)
+	localsSnap     map[string][][2]string // function key -> ordered (name, type) of its named locals at contract time
+	ownContracts   map[string]*Contract   // implementer refinements as written (before merging with the interface contract)
 	guardByField   map[string]*guardDecl
 }
 
@@ -115,6 +118,11 @@ func LoadEngine(repo string, trustedDir string, patterns []string) (*Engine, err
 				e.addSpecFile(sf, p.Types)
 			}
 		}
+	}
+	// names of the locals of each function as they were when its contract was written (see
+	// localAliases): lets a contract survive a pure renaming of locals
+	if data, err := os.ReadFile(filepath.Join(filepath.Dir(trustedDir), "locals_snapshot.json")); err == nil {
+		json.Unmarshal(data, &e.localsSnap)
 	}
 	tfiles, _ := filepath.Glob(filepath.Join(trustedDir, "*.spec"))
 	sort.Strings(tfiles)
@@ -577,4 +585,26 @@ func (c *FnCtx) frameObligations(fr *Frame, exit *State, entryEnv *Env, ct *Cont
 		}
 		c.oblige(fr, exit, "frame", "frame:"+k, goal, nil, "only locations in the modifies clause change ("+k+")", true)
 	}
+}
+
+var srcCache = map[string][]string{}
+
+// sourceLine returns the trimmed source line at pos ("" if unknown).
+func (e *Engine) sourceLine(pos token.Pos) string {
+	if !pos.IsValid() {
+		return ""
+	}
+	p := e.prog.Fset.Position(pos)
+	lines, ok := srcCache[p.Filename]
+	if !ok {
+		data, err := os.ReadFile(p.Filename)
+		if err == nil {
+			lines = strings.Split(string(data), "\n")
+		}
+		srcCache[p.Filename] = lines
+	}
+	if p.Line >= 1 && p.Line <= len(lines) {
+		return strings.TrimSpace(lines[p.Line-1])
+	}
+	return ""
 }
